@@ -27,34 +27,81 @@ type tables struct {
 	gTri, gA, gB *ssa.Global
 }
 
-func loadTables(c *props.Ctx) *tables {
+// loadTables finds the three constant tables by the role they play in the functions the March path
+// executes — a package-level two-level integer table read as table[case][i], and the two one-level tables
+// subscripted by its entries — and reads their initialisers. The names `triangulation`,
+// `cornerIndexAFromEdge`, `cornerIndexBFromEdge` are only a fallback (and what the reports call them).
+func loadTables(c *props.Ctx, p *c09path) *tables {
 	pk := c.P.Pkg(pkgRel)
 	sp := c.P.SSAPkg(pkgRel)
 	if pk == nil || sp == nil {
 		c.R.Failf("anchor package %s not found", pkgRel)
 		return nil
 	}
-	t := &tables{pk: pk}
+	tri := map[*ssa.Global]int{}
+	entries := map[ssa.Value]*ssa.Global{}
+	for _, fn := range p.order {
+		ssau.AllInstrs(fn, func(in ssa.Instruction) {
+			v, ok := in.(ssa.Value)
+			if !ok {
+				return
+			}
+			if g, idx, ok := tableRead(v); ok && len(idx) == 2 && g.Pkg == sp && isInt(v.Type()) {
+				tri[g]++
+				entries[v] = g
+			}
+		})
+	}
+	var gTri *ssa.Global
+	for g := range tri {
+		if gTri != nil {
+			c.R.Failf("anchor: the March path reads two different two-level integer tables (%s, %s); cannot tell which is the case table", gTri.Name(), g.Name())
+			return nil
+		}
+		gTri = g
+	}
+	edge := map[*ssa.Global]int{}
+	for _, fn := range p.order {
+		ssau.AllInstrs(fn, func(in ssa.Instruction) {
+			v, ok := in.(ssa.Value)
+			if !ok {
+				return
+			}
+			if g, idx, ok := tableRead(v); ok && len(idx) == 1 && g.Pkg == sp && entries[idx[0]] != nil {
+				edge[g]++
+			}
+		})
+	}
+	var edges []*ssa.Global
+	for g := range edge {
+		edges = append(edges, g)
+	}
+	sort.Slice(edges, func(i, j int) bool { return edges[i].Name() < edges[j].Name() })
+	if gTri == nil || len(edges) != 2 {
+		// fall back to the names
+		gTri = sp.Var("triangulation")
+		edges = []*ssa.Global{sp.Var("cornerIndexAFromEdge"), sp.Var("cornerIndexBFromEdge")}
+		if gTri == nil || edges[0] == nil || edges[1] == nil {
+			c.R.Failf("anchor tables not found: no function reached from MarchingCanvas.March / Field.March reads a case table as table[case][i] with two edge→corner tables subscripted by its entries, and the names triangulation / cornerIndexAFromEdge / cornerIndexBFromEdge do not exist")
+			return nil
+		}
+	}
+	t := &tables{pk: pk, gTri: gTri, gA: edges[0], gB: edges[1]}
 	var err error
-	if t.tri, err = readTable(pk, "triangulation"); err != nil {
+	if t.tri, err = readTable(pk, gTri.Name()); err != nil {
 		c.R.Failf("anchor table: %v", err)
 		return nil
 	}
-	if t.ea, err = readTable(pk, "cornerIndexAFromEdge"); err != nil {
+	if t.ea, err = readTable(pk, edges[0].Name()); err != nil {
 		c.R.Failf("anchor table: %v", err)
 		return nil
 	}
-	if t.eb, err = readTable(pk, "cornerIndexBFromEdge"); err != nil {
+	if t.eb, err = readTable(pk, edges[1].Name()); err != nil {
 		c.R.Failf("anchor table: %v", err)
 		return nil
 	}
 	if t.tri.Rows == nil || t.ea.Flat == nil || t.eb.Flat == nil {
-		c.R.Failf("anchor tables do not have the expected nesting (triangulation two-level, edge tables one-level)")
-		return nil
-	}
-	t.gTri, t.gA, t.gB = sp.Var("triangulation"), sp.Var("cornerIndexAFromEdge"), sp.Var("cornerIndexBFromEdge")
-	if t.gTri == nil || t.gA == nil || t.gB == nil {
-		c.R.Failf("anchor tables have no SSA globals")
+		c.R.Failf("anchor tables do not have the expected nesting (case table two-level, edge tables one-level)")
 		return nil
 	}
 	return t
@@ -239,7 +286,7 @@ func allFuncs(pkg *ssa.Package) []*ssa.Function {
 			}
 		}
 	}
-	sort.Slice(out, func(i, j int) bool { return out[i].Pos() < out[j].Pos() })
+	sort.Slice(out, func(i, j int) bool { return posLess(pkg.Prog.Fset, out[i].Pos(), out[j].Pos()) })
 	funcsCache[pkg] = out
 	return out
 }
@@ -270,7 +317,7 @@ func (s *site) undecide(rule, sub string, pos token.Pos, msg string) {
 func findSites(c *props.Ctx, t *tables) []*ssa.Function {
 	sp := c.P.SSAPkg(pkgRel)
 	var out []*ssa.Function
-	for _, fn := range c.P.FuncsOf(sp) {
+	for _, fn := range sortedFuncs(c, sp) {
 		if fn.Synthetic != "" {
 			continue
 		}
@@ -286,6 +333,7 @@ func findSites(c *props.Ctx, t *tables) []*ssa.Function {
 			out = append(out, fn)
 		}
 	}
+	sort.Slice(out, func(i, j int) bool { return posLess(c.P.Fset, out[i].Pos(), out[j].Pos()) })
 	return out
 }
 
